@@ -16,6 +16,7 @@ import (
 	"os"
 	"os/exec"
 	"path/filepath"
+	"regexp"
 	"runtime"
 	"sort"
 	"strconv"
@@ -231,6 +232,10 @@ func vBudget(tier string) time.Duration {
 	return 100 * time.Second
 }
 
+// vClassReplay: replay functions for violation classes raised by explorers that are
+// shared between properties (search-object histories, ...).
+var vClassReplay = map[string]func(c *vCtx, v *vViolation) bool{}
+
 // vExtraModes lets build-tag specific files add sub-commands (e.g. racepass).
 var vExtraModes = map[string]func(args []string) int{}
 
@@ -353,7 +358,12 @@ func VerifMain(args []string) int {
 			fmt.Fprintln(os.Stderr, "shard not found:", name)
 			return 2
 		}
-		ok := ch.Replay(c, &v)
+		var ok bool
+		if f, special := vClassReplay[v.Class]; special {
+			ok = f(c, &v)
+		} else {
+			ok = ch.Replay(c, &v)
+		}
 		for _, s := range c.violOrder {
 			w := c.viol[s]
 			fmt.Printf("replayed: %s\n  config: %s\n  history: %s\n  detail: %s\n", w.Sig(), w.Config, strings.Join(w.History, "; "), w.Detail)
@@ -477,7 +487,16 @@ func vOrchestrate(id, tier, verifDir string, seed int64, triage bool) int {
 	var hangs []string
 	var fatals [][3]string
 	var mu sync.Mutex
+	// VERIF_SHARDS=<regexp>: development aid, run only the matching shards (no evidence
+	// is written then; registered commands never set it)
+	var only *regexp.Regexp
+	if s := os.Getenv("VERIF_SHARDS"); s != "" {
+		only = regexp.MustCompile(s)
+	}
 	for _, i := range order {
+		if only != nil && !only.MatchString(shards[i].Name) {
+			continue
+		}
 		wg.Add(1)
 		sem <- struct{}{}
 		go func(i int) {
@@ -547,8 +566,13 @@ func vOrchestrate(id, tier, verifDir string, seed int64, triage bool) int {
 	var shardSummaries []map[string]any
 	for i, r := range results {
 		if r == nil {
-			tot.Exhaustive = false
+			if only == nil || only.MatchString(shards[i].Name) {
+				tot.Exhaustive = false
+			}
 			continue
+		}
+		if only != nil {
+			fmt.Printf("shard %s: states=%d transitions=%d evaluations=%d exhaustive=%v wall=%.1fs bound=%s\n", r.Shard, r.States, r.Transitions, r.Evaluations, r.Exhaustive, r.WallS, r.Bound)
 		}
 		tot.States += r.States
 		tot.Transitions += r.Transitions
@@ -687,7 +711,9 @@ func vOrchestrate(id, tier, verifDir string, seed int64, triage bool) int {
 	}
 	b, _ := json.MarshalIndent(ev, "", " ")
 	os.MkdirAll(filepath.Join(verifDir, "evidence"), 0755)
-	if err := os.WriteFile(filepath.Join(verifDir, "evidence", id+".json"), b, 0644); err != nil {
+	if only != nil {
+		fmt.Println("(VERIF_SHARDS set: evidence not written)")
+	} else if err := os.WriteFile(filepath.Join(verifDir, "evidence", id+".json"), b, 0644); err != nil {
 		fmt.Fprintln(os.Stderr, "cannot write evidence:", err)
 		return 3
 	}
